@@ -172,6 +172,19 @@ class Gen:
             o['sets'], o['S'] = [], []
         self.do(o)
 
+    def g_apply_match(self):
+        r = self.pick()
+        if not r or not self.room(2):
+            return
+        forms, S = self.settings()
+        pat, grp = self.rng.choice([('a', 0), ('(a)(b)?', 2), ('(a+)|(b+)', 1), ('b(-| )', 1), ('[ab]+', 0), ('x', 0), ('(a)|b', 1)])
+        self.do({'op': 'apply_match', 'r': r, 'pat': pat, 'group': grp, 'sets': forms, 'S': S})
+
+    def g_eq(self):
+        r, o = self.pick('S'), self.pick('S')
+        if r and o:
+            self.do({'op': 'eq', 'r': r, 'other': o if self.rng.random() < 0.8 else r})
+
     def g_remove(self):
         r = self.pick()
         if not r:
@@ -891,15 +904,15 @@ PROFILES = {
     'C11': dict(nonuniform=2.5, strip_enclosed=1.5, new=0.5, case=1.5, strip=2, rmfix=2, replace=3.5, expandtabs=1, split=3.5, splitlines=1.5,
                 partition=2.5, assign_str=1.5, apply=1.5, remove=0.5, add=0.5),
     'C12': dict(nonuniform=2, new=1, pad=5, pad_nested=1.5, pad_pair=1.5, fmt=5, apply=2, remove=0.5, slice=0.5, add=0.5),
-    'C16': weights(matching=6, apply=3, remove=1, slice=0.5, render=0.2, case=1.5, copy=0.3, match_case_match=1.5),
+    'C16': weights(matching=6, apply_match=1.0, apply=3, remove=1, slice=0.5, render=0.2, case=1.5, copy=0.3, match_case_match=1.5),
     'C17': weights(find_settings=5, settings_at=2.5, apply=4, remove=2, slice=0.5, add=0.7, iadd=0.7, pad=1.2, assign_str=0.6, grow_then_slice=1.5,
                    strip=0.5, new_from=0.8),
     'C04': weights(slice=5, index=2, clip=2, iter=1.5, iter_join=0.6, apply=3, remove=1.5, pad=0.8, assign_str=0.6, strip=0.4,
                    same_form_nested=1.2, grow_then_slice=1.2),
     'C05': weights(add=4, iadd=4, join=2, split_rejoin=2, slice=2, iter_join=1.0, shared_objects=0.8, seam_order=1.2),
-    'C06': weights(apply=6, remove=1.5, slice=1, restart_leftover=1.5, bottom_at_begin=1.5, same_form_nested=1.5),
+    'C06': weights(apply=6, remove=1.5, slice=1, restart_leftover=1.5, bottom_at_begin=1.5, same_form_nested=1.5, apply_match=0.7),
     'C07': weights(remove=4, remove_edge=2.5, apply=5, clear=0.3, remove_prefixlike=1.2),
-    'C08': weights(copy=3, add=2.5, iadd=2.5, join=1.5, slice=3, new_from=2, replace=2, pad=0.7, strip=0.5, split=0.5, fmt=0.7,
+    'C08': weights(copy=3, eq=0.8, add=2.5, iadd=2.5, join=1.5, slice=3, new_from=2, replace=2, pad=0.7, strip=0.5, split=0.5, fmt=0.7,
                    matching=0.5, case=0.3),
     'C09': weights(iter_join=1.0, iadd=2.5, replace=1.0, pad=2.0, pad_nested=1.0, remove_edge=0.7, restart_leftover=0.5, shared_objects=0.8, split=0.7, partition=0.5, strip=0.5, rmfix=0.5, case=0.3,
                    assign_str=0.5, query=0.5, matching=0.5, simplify=0.3, expandtabs=0.3, splitlines=0.3),
